@@ -51,7 +51,7 @@ MIN_HITS = {
               'xcheck:targets-with-highest-label': 30, 'task:SHAKESPEARE_CHARACTER': 4, 'task:STACKOVERFLOW_WORD': 4,
               'task:CIFAR100_LOGISTIC': 4, 'task:EMNIST_CONV': 4, 'task:EMNIST_DENSE': 4, 'task:EMNIST_LOGISTIC': 4,
               'model:emnist-conv': 1, 'model:emnist-dense': 1, 'model:emnist-logistic': 1, 'model:emnist-stax': 1,
-              'model:cifar100-logistic': 1, 'model:shakespeare-lstm': 1, 'model:stackoverflow-lstm': 1},
+              'model:cifar100-logistic': 1, 'model:shakespeare-lstm': 1, 'model:stackoverflow-lstm': 1, 'stackoverflow-large-vocab': 8},
     'thorough': {'mon:shk': 30000, 'mon:cifar-eval': 5000, 'mon:crop': 3000, 'mon:emnist': 40000, 'mon:xcheck': 4000,
                  'mon:tasks': 800, 'mon:loss': 1000, 'mon:rowindep': 120, 'img:low-contrast': 1000,
                  'img:constant': 1000, 'img:one-pixel-off': 1000, 'xcheck:targets-with-eos': 500,
@@ -610,53 +610,59 @@ def run_xcheck(ctx, fedjax, tf):
     nt = has['eos'] and (has['oov'] or has['highest-label']) and has['pad']
     ctx.case_done(('sh', L, tuple(sn)) if nt else None, sample={k: v for k, v in wit.items()}, klass=['xcheck', 'shakespeare'])
 
-  # ---- Stack Overflow: tokenizer (harness vocabulary) -> model metrics
-  vocab = ['the', 'cat', 'sat', 'on', 'mat', 'a', 'dog']
-  tok = dso.StackoverflowTokenizer(vocab=vocab)
-  V = len(vocab)
-  c_so = {'pad': tok.PAD, 'bos': tok.BOS, 'eos': tok.EOS, 'oov': V + 3, 'V': V + 4}
-  m_so = mso.create_lstm_model(vocab_size=V, embed_size=4, lstm_hidden_size=8)
-  maxlen = 6
-  pre = tok.as_preprocess_batch(maxlen)
-  so_shape_done = False
-  for cid, rng in ctx.cases('xcheck-stackoverflow', 40 if quick else 1000):
-    words = vocab + ['zebra', 'qux']
-    sents = []
-    for ln in (int(rng.randint(1, 3)), int(rng.randint(3, maxlen)), maxlen - 1, int(rng.randint(maxlen, maxlen + 4))):
-      sents.append(' '.join(words[k] for k in rng.randint(0, len(words), size=ln)).encode())
-    sents[2] = (sents[2].decode().rsplit(' ', 1)[0] + ' ' + vocab[-1]).encode()     # ends with the highest word label
-    perm = rng.permutation(4)
-    sents = [sents[k] for k in perm]
-    dom = (rng.rand(4) < 0.5).astype(np.int32)
-    wit = {'task': 'stackoverflow', 'max_length': maxlen, 'sentences': [s.decode() for s in sents], 'vocab': vocab}
-    r = ctx.call('stackoverflow.tokenizer', pre, {'tokens': obj_array(sents), 'domain_id': dom}, witness=wit)
-    if not r.ok:
-      ctx.case_done(None, sample=wit, klass=['xcheck', 'stackoverflow'])
-      continue
-    out = r.value
-    # reference tokenisation with the documented ids
-    ex_x, ex_y = [], []
-    for s in sents:
-      ids = [3 + vocab.index(w) if w in vocab else V + 3 for w in s.decode().split(' ')]
-      full = [tok.BOS] + ids + [tok.EOS]
-      xs, ys = full[:-1][:maxlen], full[1:][:maxlen]
-      ex_x.append(xs + [tok.PAD] * (maxlen - len(xs)))
-      ex_y.append(ys + [tok.PAD] * (maxlen - len(ys)))
-    ctx.check(np.array_equal(out['x'], np.array(ex_x, np.int32)) and np.array_equal(out['y'], np.array(ex_y, np.int32)) and
-              out['x'].dtype == np.int32 and np.array_equal(out.get('domain_id'), dom), 'xcheck/stackoverflow-tokenizer-ids',
-              'tokenizer output differs from the documented ids (PAD 0, BOS 1, EOS 2, words 3.., OOV len(vocab)+3)',
-              {**wit, 'x': out['x'], 'expected_x': ex_x, 'y': out['y'], 'expected_y': ex_y})
-    batch = {'x': out['x'], 'y': out['y']}
-    has = lm_xcheck(ctx, fedjax, 'xcheck', 'stackoverflow', m_so, batch, c_so, rng, True, wit)
-    if not so_shape_done:
-      so_shape_done = True
-      rr = ctx.call('models.stackoverflow.apply_for_eval',
-                    lambda: np.asarray(m_so.apply_for_eval(m_so.init(fedjax_key(0)), batch)), witness=wit)
-      if rr.ok:
-        ctx.check(rr.value.shape == (4, maxlen, c_so['V']), 'xcheck/stackoverflow-logits-width',
-                  f'model output shape {rr.value.shape}, tokenizer vocabulary size {c_so["V"]}', wit)
-    nt = has['eos'] and (has['oov'] or has['highest-label']) and has['pad']
-    ctx.case_done(('so', tuple(sents)) if nt else None, sample=wit, klass=['xcheck', 'stackoverflow'])
+  # ---- Stack Overflow: tokenizer (harness vocabulary) -> model metrics; once with a 7-word vocabulary, once with vocabularies
+  #      around and above 2**15 labels (any size threshold in the model's loss)
+  def so_block(vocab, ncases, family):
+    tok = dso.StackoverflowTokenizer(vocab=vocab)
+    index = {w: k for k, w in enumerate(vocab)}
+    V = len(vocab)
+    c_so = {'pad': tok.PAD, 'bos': tok.BOS, 'eos': tok.EOS, 'oov': V + 3, 'V': V + 4}
+    m_so = mso.create_lstm_model(vocab_size=V, embed_size=4, lstm_hidden_size=8)
+    maxlen = 6
+    pre = tok.as_preprocess_batch(maxlen)
+    so_shape_done = False
+    for cid, rng in ctx.cases(family, ncases):
+      words = (vocab if len(vocab) < 50 else vocab[:5] + vocab[-3:]) + ['zebra', 'qux']
+      sents = []
+      for ln in (int(rng.randint(1, 3)), int(rng.randint(3, maxlen)), maxlen - 1, int(rng.randint(maxlen, maxlen + 4))):
+        sents.append(' '.join(words[k] for k in rng.randint(0, len(words), size=ln)).encode())
+      sents[2] = (sents[2].decode().rsplit(' ', 1)[0] + ' ' + vocab[-1]).encode()     # ends with the highest word label
+      perm = rng.permutation(4)
+      sents = [sents[k] for k in perm]
+      dom = (rng.rand(4) < 0.5).astype(np.int32)
+      wit = {'task': 'stackoverflow', 'max_length': maxlen, 'sentences': [s.decode() for s in sents], 'vocab': vocab if len(vocab) < 50 else f'{len(vocab)} words w0..'}
+      r = ctx.call('stackoverflow.tokenizer', pre, {'tokens': obj_array(sents), 'domain_id': dom}, witness=wit)
+      if not r.ok:
+        ctx.case_done(None, sample=wit, klass=['xcheck', 'stackoverflow'] + (['stackoverflow-large-vocab'] if len(vocab) > 1000 else []))
+        continue
+      out = r.value
+      # reference tokenisation with the documented ids
+      ex_x, ex_y = [], []
+      for s in sents:
+        ids = [3 + index[w] if w in index else V + 3 for w in s.decode().split(' ')]
+        full = [tok.BOS] + ids + [tok.EOS]
+        xs, ys = full[:-1][:maxlen], full[1:][:maxlen]
+        ex_x.append(xs + [tok.PAD] * (maxlen - len(xs)))
+        ex_y.append(ys + [tok.PAD] * (maxlen - len(ys)))
+      ctx.check(np.array_equal(out['x'], np.array(ex_x, np.int32)) and np.array_equal(out['y'], np.array(ex_y, np.int32)) and
+                out['x'].dtype == np.int32 and np.array_equal(out.get('domain_id'), dom), 'xcheck/stackoverflow-tokenizer-ids',
+                'tokenizer output differs from the documented ids (PAD 0, BOS 1, EOS 2, words 3.., OOV len(vocab)+3)',
+                {**wit, 'x': out['x'], 'expected_x': ex_x, 'y': out['y'], 'expected_y': ex_y})
+      batch = {'x': out['x'], 'y': out['y']}
+      has = lm_xcheck(ctx, fedjax, 'xcheck', 'stackoverflow', m_so, batch, c_so, rng, True, wit)
+      if not so_shape_done:
+        so_shape_done = True
+        rr = ctx.call('models.stackoverflow.apply_for_eval',
+                      lambda: np.asarray(m_so.apply_for_eval(m_so.init(fedjax_key(0)), batch)), witness=wit)
+        if rr.ok:
+          ctx.check(rr.value.shape == (4, maxlen, c_so['V']), 'xcheck/stackoverflow-logits-width',
+                    f'model output shape {rr.value.shape}, tokenizer vocabulary size {c_so["V"]}', wit)
+      nt = has['eos'] and (has['oov'] or has['highest-label']) and has['pad']
+      ctx.case_done(('so', tuple(sents)) if nt else None, sample=wit, klass=['xcheck', 'stackoverflow'] + (['stackoverflow-large-vocab'] if len(vocab) > 1000 else []))
+
+  so_block(['the', 'cat', 'sat', 'on', 'mat', 'a', 'dog'], 40 if quick else 1000, 'xcheck-stackoverflow')
+  for nv in (32763, 32764, 32765, 40000):
+    so_block([f'w{i}' for i in range(nv - 1)] + ['dog'], 3 if quick else 12, f'xcheck-stackoverflow-{nv}')
 
   # ---- classification: EMNIST and CIFAR-100 dataset output -> model metrics
   models_cls = [('emnist', me.create_logistic_model(), 62), ('emnist', me.create_conv_model(), 62),
